@@ -113,7 +113,7 @@ func init() {
 		},
 		Real: realComponents, Stub: seqStub,
 	})
-	concStub := []string{"thread scheduler (real goroutines released one at a time at repo hooks; enabledness from the real latch words)", "link: FIFO with seeded delay in front of the real commit.Channel", "disk: in-memory SimFile/SimReader under the real commit.Log and Snapshot/Restore"}
+	concStub := []string{"thread scheduler (real goroutines released one at a time at the repo hooks and, in the lock-instrumented scratch copy, before every Lock/RLock of the library; enabledness from the real latch and mutex words)", "link: FIFO with seeded delay in front of the real commit.Channel", "disk: in-memory SimFile/SimReader under the real commit.Log and Snapshot/Restore"}
 	register(&PropDef{
 		ID: "C06", Quick: 12000, Thorough: 1000000, Level: "exploration",
 		Rule: "2-5 concurrent writer threads (all column kinds, inserts with offset reuse, deletes, merges, multi-block transactions) on a primary whose every commit is tapped inside the block latch and forwarded to a real commit.Channel (consumed by an applier thread after a seeded link delay and replayed on REPLICA-C) and to a real commit.Log on a SimFile (replayed on REPLICA-L through a chunking reader); in odd runs a snapshotter thread takes snapshots meanwhile; schedule drawn per run from uniform/sticky/PCT/round-robin/phase-biased strategies over all hook points; at quiescence Dump(primary)==Dump(REPLICA-C)==Dump(REPLICA-L)==model; non-trivial = at least one commit and at least one scheduling decision with more than one enabled thread; distinct = distinct (interleaving signature, end state)",
